@@ -34,9 +34,9 @@ const (
 	maxInput    = 64 << 10 // hostile inputs are capped at 64 KiB
 	watchdogSec = 10
 	// A compressed snapshot of at most 64 KiB cannot legitimately expand
-	// beyond this; frames that declare more trigger finding F21.
+	// beyond this; frames that declare more trigger finding F40.
 	hugeDeclared = 256 << 20
-	findingZstd  = "F21"
+	findingZstd  = "F40"
 )
 
 // verdict of one decoder run.
@@ -165,13 +165,27 @@ var decoders = map[string]decoder{
 
 func errClass(err error) string {
 	s := err.Error()
-	if i := strings.IndexAny(s, ":0123456789"); i > 0 {
-		s = s[:i]
+	if i := strings.LastIndex(s, ": "); i >= 0 {
+		s = s[i+2:]
 	}
-	if len(s) > 40 {
-		s = s[:40]
+	var sb strings.Builder
+	for _, r := range s {
+		if (r >= 'a' && r <= 'z') || (r >= 'A' && r <= 'Z') || r == ' ' {
+			sb.WriteRune(r)
+		}
+		if sb.Len() >= 40 {
+			break
+		}
 	}
-	return strings.TrimSpace(s)
+	s = strings.TrimSpace(sb.String())
+	if len(strings.Fields(s)) < 2 {
+		// a bare token is user data (a key, an id), not a message
+		if i := strings.Index(err.Error(), ": "); i > 0 {
+			return strings.TrimSpace(err.Error()[:min(i, 40)])
+		}
+		return "other"
+	}
+	return s
 }
 
 // stage runs a follow-up step on an accepted value; a panic there is
